@@ -212,7 +212,7 @@ def run_case(case):
         ref = runner.Ref(spec0, {"dt": 10, "eval": _times(n)}, slm_rule="mid")
         o = ref.observables(1.0)["occupation"]
         got = np.array([base["occ"][1.0][q] for q in spec0["ids"]])
-        if np.abs(got - o).max() > tol + 1e-6:
+        if not np.abs(got - o).max() <= tol + 1e-6:  # NaN fails
             return result(False, sig="anchor", msg=f"{label0}: base run differs from the dense reference: {got} vs {o}", outcome="anchor")
     answers = [None] + _perms(n, case["tier"], case["full_p"])
     base_bits = None
@@ -235,7 +235,7 @@ def run_case(case):
                 return result(False, sig="tag-suffix|not-unpermuted", msg=f"{label}: Occupation / CorrelationMatrix requested a second time under tag_suffix='again' differ from the plain ones by {got['suffix_diff']:.3e} (same state, same time)", outcome="suffix")
             d = _diff(base, got)
             worst = max(worst, d)
-            if d > tol:
+            if not d <= tol:  # NaN fails
                 bad_t = {q: (round(base["occ"][1.0][q], 6), round(got["occ"][1.0][q], 6)) for q in spec0["ids"]}
                 sig = "relabel" if p is None else ("optimiser" if pi == list(range(n)) else "relabel+optimiser")
                 return result(False, sig=f"{sig}|{case['kind']}", msg=f"{label}: per-atom results differ from the base run by {d:.3e} > {tol:.1e}; occupation(base, got) by name at t=1: {bad_t}; energy {base['energy']} vs {got['energy']}", outcome="diff")
@@ -251,7 +251,7 @@ def run_case(case):
                     return result(False, sig=f"repeated-trajectory|{case['kind']}", msg=f"{label}: with n_trajectories=2 (the same trajectory twice) the averaged per-atom results differ from the single run by {d2:.3e}", outcome="reps")
             if with_state:
                 st = runner.get_at(res, "state", 1.0)
-                if abs(float(st.norm()) - 1) > 1e-6:
+                if not abs(float(st.norm()) - 1) <= 1e-6:  # NaN fails
                     return result(False, sig="state-norm", msg=f"{label}: returned state has norm {float(st.norm())}", outcome="norm")
         # exact bitstring distribution (N = 3: at most 8 paths per configuration)
         if n == 3:
@@ -264,11 +264,11 @@ def run_case(case):
                 base_bits, paths0 = _bit_dist_by_name(spec0, mask0, None)
                 transitions += paths0
                 tot = sum(base_bits.values())
-                if abs(tot - 1) > 1e-9:
+                if not abs(tot - 1) <= 1e-9:  # NaN fails
                     return result(False, sig="bitstrings|mass", msg=f"{label0}: explored probability mass {tot}", outcome="mass")
             dd = explore.dist_distance(base_bits, bits)
             worst = max(worst, dd)
-            if dd > max(tol, 1e-6):
+            if not dd <= max(tol, 1e-6):  # NaN fails
                 return result(False, sig=f"bitstrings|{'relabel' if p is None else 'optimiser'}|{case['kind']}", msg=f"{label0} optimiser_answer={p}: exact bitstring distribution (by atom name) differs from the base run by {dd:.3e}\n base {rnd(base_bits, 5)}\n got  {rnd(bits, 5)}", outcome="bits")
     nontrivial = pi != list(range(n)) or len(answers) > 2
     return result(True, outcome=["ok", rnd([base["occ"][1.0][q] for q in spec0["ids"]], 4), states], states=states, transitions=transitions, nontrivial=nontrivial, extra={"worst": worst})
